@@ -492,17 +492,139 @@ PARAM_INSTANCES = {
     'C13': [('dd.bdd.BDD._top_cofactor', 'u')],
     'C15': [('dd.mdd.MDD._top_cofactor', 'u')],
 }
-# loop-subject instances: (qualname, loop variable that identifies the
-# loop, subject, emit calls)
+# loop-subject instances: (qualname, selector, emit calls[, 'optional'])
+# A selector finds the loop *structurally* (never by the names of locals)
+# and returns (loop body, subject name) or None.
+def _fors(fn):
+    return sorted((n for n in au.walk_no_defs(fn) if isinstance(n, ast.For)),
+                  key=lambda n: n.lineno)
+
+
+def _iter_resolved(fn, it):
+    """The iterable of a `for`, with a plain local name resolved to the
+    expression it was assigned from."""
+    if isinstance(it, ast.Name):
+        defs = au.assignments_to(fn, it.id)
+        if len(defs) == 1:
+            return defs[0].value
+    return it
+
+
+def _triple_unpack(stmts):
+    """First `a, b, c = <x>._succ[...]` below `stmts` -> the Assign."""
+    for st in stmts:
+        for n in au.walk_no_defs(st):
+            if isinstance(n, ast.Assign) and isinstance(
+                    n.targets[0], ast.Tuple) and len(
+                        n.targets[0].elts) == 3 and isinstance(
+                            n.value, ast.Subscript):
+                ch = au.chain(n.value.value)
+                if ch and ch[-1] == '_succ':
+                    return n
+    return None
+
+
+def sel_levels_loop(fn):
+    """`for u, i, v, w in <...levels(...)>` -> subject = low successor."""
+    for lp in _fors(fn):
+        it = _iter_resolved(fn, lp.iter)
+        if isinstance(it, ast.Call) and au.call_name(it) == 'levels' and \
+                isinstance(lp.target, ast.Tuple) and len(
+                    lp.target.elts) == 4 and isinstance(
+                        lp.target.elts[2], ast.Name):
+            return lp.body, lp.target.elts[2].id
+    return None
+
+
+def sel_attr_loop(attr):
+    """`for x in self.<attr>` -> subject = x."""
+    def sel(fn):
+        for lp in _fors(fn):
+            ch = au.chain(lp.iter)
+            if ch and ch[-1] == attr and isinstance(lp.target, ast.Name):
+                return lp.body, lp.target.id
+        return None
+    return sel
+
+
+def sel_items_triple(fn):
+    """`for u, (k, v, w) in <table>.items()` -> subject = v."""
+    for lp in _fors(fn):
+        t = lp.target
+        if isinstance(lp.iter, ast.Call) and au.call_name(
+                lp.iter) == 'items' and isinstance(t, ast.Tuple) and len(
+                    t.elts) == 2 and isinstance(
+                        t.elts[1], ast.Tuple) and len(
+                            t.elts[1].elts) == 3 and isinstance(
+                                t.elts[1].elts[1], ast.Name):
+            return lp.body, t.elts[1].elts[1].id
+    return None
+
+
+def sel_roots_add(fn):
+    """top-level `for r in <roots>` whose body adds to `<mgr>.roots`."""
+    for lp in _fors(fn):
+        if lp in fn.body and isinstance(lp.target, ast.Name) and any(
+                au.call_name(c) in ('add', 'update') and au.call_recv(
+                    c) and au.call_recv(c)[-1] == 'roots'
+                for c in au.calls_in(lp)):
+            return lp.body, lp.target.id
+    return None
+
+
+def sel_param_loop_triple(param):
+    """`for x in <param>` (outermost) whose body unpacks a successor
+    triple -> subject = the low successor of that triple."""
+    def sel(fn):
+        for lp in _fors(fn):
+            if au.is_name(lp.iter, param):
+                tu = _triple_unpack(lp.body)
+                if tu is not None and isinstance(
+                        tu.targets[0].elts[1], ast.Name):
+                    return lp.body, tu.targets[0].elts[1].id
+        return None
+    return sel
+
+
+def sel_triple_loop_with(call):
+    """The loop whose body unpacks a successor triple and calls `call`
+    -> subject = the low successor."""
+    def sel(fn):
+        for lp in _fors(fn):
+            if lp not in fn.body:
+                continue
+            tu = _triple_unpack(lp.body)
+            if tu is not None and any(au.call_name(c) == call
+                                      for c in au.calls_in(lp)) and \
+                    isinstance(tu.targets[0].elts[1], ast.Name):
+                return lp.body, tu.targets[0].elts[1].id
+        return None
+    return sel
+
+
+def sel_param_loop(param, nth=-1):
+    """`for x in <param>` (the nth such loop) -> subject = x."""
+    def sel(fn):
+        loops = [lp for lp in _fors(fn) if au.is_name(lp.iter, param)
+                 and isinstance(lp.target, ast.Name)]
+        if loops:
+            lp = loops[nth]
+            return lp.body, lp.target.id
+        return None
+    return sel
+
+
 LOOP_INSTANCES = {
-    'C02': [('dd.bdd.BDD.reduction', 'v', 0, 'v', ('find_or_add',)),
-            ('dd.bdd.BDD.reduction', 'v', 1, 'v', ('add',))],
-    'C16': [('dd.dddmp.load', 'v', 0, 'v', ('find_or_add',)),
-            ('dd.dddmp.load', 'root', 0, 'root', ('add', 'update'),
+    'C02': [('dd.bdd.BDD.reduction', sel_levels_loop, ('find_or_add',)),
+            ('dd.bdd.BDD.reduction', sel_attr_loop('roots'), ('add',))],
+    'C16': [('dd.dddmp.load', sel_items_triple, ('find_or_add',)),
+            ('dd.dddmp.load', sel_roots_add, ('add', 'update'),
              'optional')],
-    'C18': [('dd.bdd.to_nx', 'root', 0, 'v', ('add_edge',)),
-            ('dd.bdd._to_dot', 'u', 1, 'v', ('add_edge',)),
-            ('dd.bdd._to_dot', 'u', 2, 'u', ('add_edge',))],
+    'C18': [('dd.bdd.to_nx', sel_param_loop_triple('roots'),
+             ('add_edge',)),
+            ('dd.bdd._to_dot', sel_triple_loop_with('add_edge'),
+             ('add_edge',)),
+            ('dd.bdd._to_dot', sel_param_loop('roots'), ('add_edge',))],
 }
 EXEMPT = {
     # result is independent of the sign of the reference
@@ -532,16 +654,18 @@ def r_sign(P, R):
                 f'{q} no longer has the subject parameter `{subj}`')
         if check_function(R, f, subj) > 0:
             n += 1
-    for q, loopvar, nth, subj, emit, *opt in LOOP_INSTANCES.get(pid, []):
+    for q, selector, emit, *opt in LOOP_INSTANCES.get(pid, []):
         f = P.func(q)
-        body = loop_over(f.node, loopvar, nth)
-        if body is None and opt:
+        found = selector(f.node)
+        if found is None and opt:
             # the translation loop is checked by R-DOMAIN when absent
             continue
         want += 1
-        if body is None:
+        if found is None:
             raise AnalysisError(
-                f'{q}: the loop over `{loopvar}` (#{nth}) vanished')
+                f'{q}: the loop over successor references '
+                f'({selector.__name__}) was not found')
+        body, subj = found
         if check_function(R, f, subj, mode='emit', emit=emit,
                           scope=body) > 0:
             n += 1
